@@ -60,7 +60,8 @@ theorem toNat_replicate_zero (w n : Nat) : toNat w (List.replicate n 0) = 0 :=
 
 /-- `operator<<=`: the magnitude is multiplied by 2^k — any state whose limbs fit the block type. -/
 theorem shl_spec (w : Nat) (hw : 0 < w) (x : EI) (k : Nat) (hx : LimbsOk w x.limbs) :
-    toNat w (shl w x k).limbs = toNat w x.limbs * 2 ^ k ∧ (shl w x k).sign = x.sign ∧ LimbsOk w (shl w x k).limbs := by
+    toNat w (shl w x k).limbs = toNat w x.limbs * 2 ^ k ∧ (shl w x k).sign = x.sign ∧ LimbsOk w (shl w x k).limbs ∧
+      (k ≠ 0 → NoLeadingZero (shl w x k).limbs) := by
   unfold shl
   by_cases hk : k = 0
   · simp [hk, hx]
@@ -86,8 +87,8 @@ theorem shl_spec (w : Nat) (hw : 0 < w) (x : EI) (k : Nat) (hx : LimbsOk w x.lim
       rw [← pow_mul, ← pow_add]; congr 1; exact Nat.div_add_mod k w
     by_cases hearly : k ≥ w ∧ k % w = 0
     · simp only [hearly, and_self, if_true]
-      refine ⟨?_, trivial, hok2⟩
-      rw [hl2, ← hpow, hearly.2]; ring
+      refine ⟨?_, trivial, limbsOk_stripTop hok2, fun _ => noLeadingZero_stripTop _⟩
+      rw [toNat_stripTop, hl2, ← hpow, hearly.2]; ring
     · simp only [hearly, if_false]
       have hs0 : 0 < k % w := by
         by_contra h0
@@ -102,7 +103,7 @@ theorem shl_spec (w : Nat) (hw : 0 < w) (x : EI) (k : Nat) (hx : LimbsOk w x.lim
       rw [← List.append_assoc, lastOf_append_zero] at hspec
       simp only [Nat.zero_div, Nat.mul_zero, Nat.add_zero] at hspec
       rw [List.append_assoc] at hspec
-      refine ⟨?_, trivial, limbsOk_stripTop (shlBits_ok w (k % w) hs0 hsw _ 0 (Nat.two_pow_pos w) hok2)⟩
+      refine ⟨?_, trivial, limbsOk_stripTop (shlBits_ok w (k % w) hs0 hsw _ 0 (Nat.two_pow_pos w) hok2), fun _ => noLeadingZero_stripTop _⟩
       simp only [toNat_stripTop]
       rw [hspec, hl2, ← hpow]; ring
 
@@ -166,50 +167,31 @@ theorem toNat_drop (w n : Nat) {l : List Nat} (hl : LimbsOk w l) (hn : n ≤ l.l
     rwa [hlen] at this
   rw [h, Nat.add_mul_div_left _ _ (Nat.pow_pos (Nat.two_pow_pos w)), Nat.div_eq_of_lt hlt, Nat.zero_add]
 
-/-- outside the defect region the in-place block move is "drop `bs` limbs, append `bs` zero limbs". -/
-theorem shrBlocks_eq (l : List Nat) (bs : Nat) (h : 2 * bs ≤ l.length) (hne : l ≠ []) :
+/-- the block move is "drop `bs` limbs, append `bs` zero limbs". -/
+theorem shrBlocks_eq (l : List Nat) (bs : Nat) (h : bs ≤ l.length - 1) :
     shrBlocks l bs = l.drop bs ++ List.replicate bs 0 := by
-  have hlen : 0 < l.length := List.length_pos_iff.mpr hne
   unfold shrBlocks
-  have hm : l.length - 1 ≥ bs := by omega
-  simp only [hm, if_true]
-  apply List.ext_getElem
-  · simp; omega
-  · intro p h1 h2
-    simp only [List.length_map, List.length_range] at h1
-    simp only [List.getElem_map, List.getElem_range]
-    by_cases hp : p + bs ≤ l.length - 1
-    · simp only [hp, if_true]
-      have hp2 : p < (l.drop bs).length := by simp; omega
-      rw [List.getElem_append_left hp2]
-      simp only [block, List.getElem_drop]
-      rw [List.getD_eq_getElem?_getD, List.getElem?_eq_getElem (by omega)]
-      simp [Nat.add_comm]
-    · simp only [hp, if_false]
-      have hp3 : p ≥ bs := by omega
-      simp only [hp3, if_true]
-      have hp2 : (l.drop bs).length ≤ p := by simp; omega
-      rw [List.getElem_append_right hp2]
-      simp
+  simp [h]
 
-/-- `operator>>=` outside the block-move defect region: the magnitude is divided by 2^k (toward zero). -/
-theorem shr_spec (w : Nat) (hw : 0 < w) (x : EI) (k : Nat) (hx : LimbsOk w x.limbs)
-    (hregion : ¬ (k ≥ w ∧ k ≤ x.limbs.length * w ∧ x.limbs.length < 2 * (k / w))) :
-    toNat w (shr w x k).limbs = toNat w x.limbs / 2 ^ k ∧ LimbsOk w (shr w x k).limbs := by
+/-- `operator>>=`: the magnitude is divided by 2^k (toward zero) for EVERY shift count; the limb vector is left
+    without most-significant zero limbs. -/
+theorem shr_spec (w : Nat) (hw : 0 < w) (x : EI) (k : Nat) (hx : LimbsOk w x.limbs) :
+    toNat w (shr w x k).limbs = toNat w x.limbs / 2 ^ k ∧ LimbsOk w (shr w x k).limbs ∧
+      (k ≠ 0 → NoLeadingZero (shr w x k).limbs) ∧ (shr w x k).sign = (if k ≠ 0 ∧ k ≥ x.limbs.length * w then false else x.sign) := by
   unfold shr
   by_cases hk : k = 0
   · simp [hk, hx]
   · simp only [hk, if_false]
-    by_cases hbig : k > x.limbs.length * w
+    by_cases hbig : k ≥ x.limbs.length * w
     · simp only [hbig, if_true]
-      refine ⟨?_, limbsOk_nil w⟩
+      refine ⟨?_, limbsOk_nil w, fun _ => by simp [NoLeadingZero], by simp [hk]⟩
       have h1 := toNat_lt hx
       have h2 : (2 ^ w) ^ x.limbs.length ≤ 2 ^ k := by
         rw [← pow_mul]; apply Nat.pow_le_pow_right (by decide); rw [Nat.mul_comm]; omega
       rw [Nat.div_eq_of_lt (by omega)]; rfl
     · simp only [hbig, if_false]
       have hne : x.limbs ≠ [] := by
-        intro h0; rw [h0] at hbig; simp at hbig; exact hk hbig
+        intro h0; rw [h0] at hbig; simp at hbig
       have hbs : (if k ≥ w then k / w else 0) = k / w := by
         split
         · rfl
@@ -220,17 +202,19 @@ theorem shr_spec (w : Nat) (hw : 0 < w) (x : EI) (k : Nat) (hx : LimbsOk w x.lim
       rw [hsm]
       have hpow : (2 ^ w) ^ (k / w) * 2 ^ (k % w) = 2 ^ k := by
         rw [← pow_mul, ← pow_add]; congr 1; exact Nat.div_add_mod k w
-      have hbl : k / w ≤ x.limbs.length := by
-        have : k ≤ w * x.limbs.length := by rw [Nat.mul_comm]; omega
-        exact Nat.div_le_of_le_mul this
+      have hbl : k / w ≤ x.limbs.length - 1 := by
+        have h1 : k < x.limbs.length * w := by omega
+        have h2 : k / w < x.limbs.length := by
+          apply Nat.div_lt_of_lt_mul; rw [Nat.mul_comm]; exact h1
+        omega
+      have hbl' : k / w ≤ x.limbs.length := by omega
+      have hsign : (if k ≠ 0 ∧ k ≥ x.limbs.length * w then false else x.sign) = x.sign := by simp [hbig]
       -- the limbs after the block move
       have hl2 : toNat w (if k ≥ w then shrBlocks x.limbs (k / w) else x.limbs) = toNat w x.limbs / (2 ^ w) ^ (k / w)
           ∧ LimbsOk w (if k ≥ w then shrBlocks x.limbs (k / w) else x.limbs) := by
         by_cases hkw : k ≥ w
         · simp only [hkw, if_true]
-          have h2 : 2 * (k / w) ≤ x.limbs.length := by
-            by_contra hcon; exact hregion ⟨hkw, by omega, by omega⟩
-          rw [shrBlocks_eq _ _ h2 hne, toNat_append_zeros, toNat_drop w _ hx hbl]
+          rw [shrBlocks_eq _ _ hbl, toNat_append_zeros, toNat_drop w _ hx hbl']
           refine ⟨rfl, ?_⟩
           intro y hy
           simp only [List.mem_append, List.mem_replicate] at hy
@@ -244,11 +228,11 @@ theorem shr_spec (w : Nat) (hw : 0 < w) (x : EI) (k : Nat) (hx : LimbsOk w x.lim
       · have hkw := hearly.1
         simp only [hkw, if_true] at hl2
         simp only [hearly, and_self, if_true]
-        refine ⟨?_, limbsOk_stripTop hl2.2⟩
+        refine ⟨?_, limbsOk_stripTop hl2.2, fun _ => noLeadingZero_stripTop _, by simp⟩
         rw [toNat_stripTop, hl2.1, ← hpow, hearly.2]; simp
       · simp only [hearly, if_false]
         have hsw : k % w ≤ w := Nat.le_of_lt (Nat.mod_lt _ hw)
-        refine ⟨?_, limbsOk_stripTop (shrBits_ok w _ hsw _ hl2.2)⟩
+        refine ⟨?_, limbsOk_stripTop (shrBits_ok w _ hsw _ hl2.2), fun _ => noLeadingZero_stripTop _, by simp⟩
         rw [toNat_stripTop, shrBits_spec w _ hsw, hl2.1, ← hpow, Nat.div_div_eq_div_mul]
 
 end UVerif.EInt
